@@ -3635,7 +3635,7 @@ namespace awkward {
                 return;
               }
               T* top = stack_peek();
-              *top = abs(*top);
+              *top = (*top < 0 ? -(*top) : *top);
               break;
             }
 
